@@ -247,7 +247,7 @@ func c03Faithful(from uint64, block []byte, tramp uint64, out []byte, n int, ext
 	return "faithful"
 }
 
-func c03Case(out *vh.Out, idx int, from uintptr, block []byte, tramps []uintptr, extent []byte) {
+func c03Case(out *vh.Out, idx int, from uintptr, block []byte, tramps []uintptr, extent []byte, sym ...string) {
 	items, tail := c03Decode(block)
 	ts := make([]string, len(tramps))
 	var res, ver []string
@@ -262,7 +262,7 @@ func c03Case(out *vh.Out, idx int, from uintptr, block []byte, tramps []uintptr,
 		}
 	}
 	op := fmt.Sprintf("c03.reloc 0x%x %d %d %s %s %s", from, len(block), c03JumpLen, tail, strings.Join(ts, ","), strings.Join(items, " "))
-	out.Put(idx, "%s\t%s\t%s", op, strings.Join(res, " | "), strings.Join(ver, " | "))
+	out.Put(idx, "%s\t%s\t%s\t%s", op, strings.Join(res, " | "), strings.Join(ver, " | "), strings.Join(sym, ""))
 }
 
 type c03fn struct {
@@ -516,6 +516,30 @@ func TestVerifC03(t *testing.T) {
 			continue
 		}
 		switch op.Toks[0] {
+		case "c03.fn": // c03.fn <symbol name> <absolute trampoline positions>: one function of this binary (replays)
+			if fns == nil {
+				fns = c03Funcs()
+			}
+			for k := range fns {
+				if fns[k].name != op.Toks[1] {
+					continue
+				}
+				from := fns[k].addr
+				size, err := bytecode.GetFuncSize(64, from, false)
+				if err != nil || size <= 0 {
+					continue
+				}
+				block := append([]byte(nil), memory.RawRead(from, size)...)
+				var tramps []uintptr
+				for _, d := range c03Ints(op.Toks[2]) {
+					tramps = append(tramps, uintptr(int64(from)+d))
+				}
+				var extent []byte
+				if fns[k].size > 0 && fns[k].size < 1<<17 {
+					extent = append([]byte(nil), memory.RawRead(from, fns[k].size)...)
+				}
+				c03Case(out, op.Idx, from, block, tramps, extent)
+			}
 		case "c03.fns", "c03.tramp":
 			if fns == nil {
 				fns = c03Funcs()
@@ -547,7 +571,7 @@ func TestVerifC03(t *testing.T) {
 				if fns[k].size > 0 && fns[k].size < 1<<17 {
 					extent = append([]byte(nil), memory.RawRead(from, fns[k].size)...)
 				}
-				c03Case(out, op.Idx, from, block, tramps, extent)
+				c03Case(out, op.Idx, from, block, tramps, extent, fns[k].name)
 				done++
 			}
 		case "c03.small":
